@@ -13,7 +13,9 @@ EXPLANATION = (
     "evaluated with arrays as labelled tensors; result dims, axes and the symbolic entry must equal the property's operator "
     "table (common dims in x's order with both operands summed by label; union dims x first; ** keeps x's dims and refuses "
     "foreign ones). Symbolic in all values and lengths; exhaustive over the alphabet bound. Decides the label/pairing structure, "
-    "not floating-point rounding.")
+    "not floating-point rounding."
+    " A NumPy number on the left (np.float64(2) - x) is decided structurally: the array classes offer NumPy no array conversion (__array__, __array_interface__, __array_struct__, __len__ + __getitem__) without opting out of NumPy's operator dispatch (rule C01.numpy-number-on-the-left, dispatch table probed against the installed NumPy)."
+)
 TECHNIQUE = "static analysis: abstract interpretation of the operators' AST on a labelled-tensor domain, exhaustive over dimension-list pairs"
 
 
